@@ -6,27 +6,27 @@ HERE = os.path.dirname(os.path.dirname(os.path.abspath(__file__)))
 # id -> (technique, level text, level note, design ref)
 CHECKS = {
  "C02": ("property-based differential testing against an independent reference evaluator: bounded-exhaustive operand enumeration (depth 1 and 2) + seeded random typed expression trees with shrinking",
-         "Exploration: every node kind x every ordered operand tuple of a boundary pool and a mid-range pool, every depth-2 composition over a reduced pool, every binary kind over two structurally identical operands (NaN-valued and others), every public way of writing a literal, and seeded random typed trees to depth 8 are evaluated and compared (value or error class) with a reference evaluator written from the property statements. Holds on what was explored.",
+         "Exploration: every node kind x every ordered operand tuple of a boundary pool and a mid-range pool, every depth-2 composition over a reduced pool, every binary kind over two structurally identical operands (NaN-valued and others), every public way of writing a literal, and seeded random typed trees (pools include leap seconds, word-final sigma and other context-sensitive case mappings, maps holding none) to depth 8 are evaluated and compared (value or error class) with a reference evaluator written from the property statements. Holds on what was explored.",
          "Trusts the reference evaluator (operator table of DESIGN.md §3.3; self-tested against the repository's own expected values at start-up) and the primitive arithmetic of std / rust_decimal / chrono.",
          "DESIGN.md §4 C02"),
  "C03": ("property-based testing: exhaustive type-pair cell enumeration against an independent support table + random trees with a buried wrongly-typed literal against the reference evaluator",
-         "Exploration: every unary/binary/ternary node kind x every ordered pair of a pool covering all 9 non-None types (including the values that coincide after coercion) and every index step (text key / position built through the Index variants and every From impl, digit-looking texts, maps with digit keys) is judged by a support table of its own (unsupported => type error, == across types => false, only casts change type); buried mismatches in random typed trees are compared with the reference evaluator.",
+         "Exploration: every unary/binary/ternary node kind x every ordered pair of a pool covering all 9 non-None types (including the values that coincide after coercion) and every index step (text key / position built through the Index variants and every From impl, digit-looking texts, maps with digit keys) is judged by a support table of its own; an ill-typed element anywhere in a searched list literal of 2-40 elements is a type error (unsupported => type error, == across types => false, only casts change type); buried mismatches in random typed trees are compared with the reference evaluator.",
          "Trusts the support table in harness/src/props/c03.rs and the reference evaluator for the tree part.",
          "DESIGN.md §4 C03"),
  "C04": ("property-based testing: exhaustive None-position cell enumeration against the statement's table + random trees with missing lookups against the reference evaluator",
-         "Exploration: every node kind x None in each operand position x every boundary-pool value as the other operand (exhaustive) against the statement's list transcribed as a table; 25 None-valued / None-rule-valued conditions in 10 if/and/or frames through constructors, text, Expr::evaluate and a ruleset; random typed trees in which None arises from lookups that miss, compared with the reference evaluator.",
+         "Exploration: every node kind x None in each operand position x every boundary-pool value as the other operand (exhaustive) against the statement's list transcribed as a table; 25 None-valued / None-rule-valued conditions in 10 if/and/or frames through constructors, text, Expr::evaluate and a ruleset; every cell also with its operands supplied by symbols and by input fields; 20 expressions over an input that is None as a whole through four entry points; random typed trees in which None arises from lookups that miss, compared with the reference evaluator.",
          "Trusts the table in harness/src/props/c04.rs and the reference evaluator for the tree part.",
          "DESIGN.md §4 C04"),
  "C05": ("model-based property testing over invocation histories: call-logging non-cacheable probes, exhaustive lazy-operand family + seeded random lazy/strict trees, oracle = reference evaluator's predicted call sequence and first error",
-         "Exploration: the exact sequence of user-function invocations and the result/first error are compared with the reference evaluator's (lazy if/and/or/==, everything else once, left to right, key order) on an exhaustive small family (incl. left/right-nested chains of every binary kind over typed call results and lists/maps of up to 300 items) and on seeded random boolean-typed trees to depth 5.",
+         "Exploration: the exact sequence of user-function invocations and the result/first error are compared with the reference evaluator's (lazy if/and/or/==, everything else once, left to right, key order) on an exhaustive small family (incl. left/right-nested chains of every binary kind over typed call results lists/maps of up to 300 items, membership in list literals with the match at every position, else-if ladders repeating one subject) and on seeded random boolean-typed trees to depth 5.",
          "Observation only through the harness's logging probes registered in a RuleSet; trusts the reference evaluator's laziness rules.",
          "DESIGN.md §4 C05"),
  "C06": ("property-based robustness testing / fuzzing of the parsers: exhaustive short sequences over the full token alphabet + grammar-generated texts with token/character mutations, out-of-range numerals, all escape forms, arbitrary Unicode; panic-catching oracle + reference literal-range oracle",
-         "Exploration: every generated text is given to Expr::parse, Rule::parse and Rule::parse behind a comment+metadata prefix under a panic-catching boundary (also from a thread-local destructor while the thread exits, and for comment blocks indented with multi-byte white space); a panic, or acceptance of a literal that the reference conversion routines classify as denoting no value, is a violation.",
+         "Exploration: every generated text is given to Expr::parse, Rule::parse and Rule::parse behind a comment+metadata prefix under a panic-catching boundary (also from a thread-local destructor while the thread exits, for comment blocks indented with multi-byte white space, and - in child processes built with the release and with the dev profile - for flat texts of 4 kB to 2 MB); a panic, or acceptance of a literal that the reference conversion routines classify as denoting no value, is a violation.",
          "Trusts the reference literal conversion routines (harness/src/model/parse.rs) for the out-of-range oracle.",
          "DESIGN.md §4 C06"),
  "C07": ("differential property testing against an independent recursive-descent reference parser: bounded-exhaustive token sequences (viable-prefix-pruned beyond the exhaustive length), class expansion, and print/parse round trips of enumerated and random trees under three parenthesisation modes",
-         "Exploration: accept/reject and tree equality of Expr::parse against a reference lexer + recursive-descent parser written from the precedence table, on every token sequence up to length 4 over one representative per token class, every extension of viable prefixes to length 6-7, class-expanded variants (incl. reserved-but-unlexed words as identifiers), every accepted constant sequence bare / parenthesised / wrapped as the value of a rule's metadata item, and on minimal/full/random renderings of every depth-2 tree and of random trees.",
+         "Exploration: accept/reject and tree equality of Expr::parse against a reference lexer + recursive-descent parser written from the precedence table, on every token sequence up to length 4 over one representative per token class, every extension of viable prefixes to length 6-7, class-expanded variants (incl. reserved-but-unlexed words as identifiers), texts with `/* */` look-alikes and free-text comments holding brackets and quotes, every accepted constant sequence bare / parenthesised / wrapped as the value of a rule's metadata item, and on minimal/full/random renderings of every depth-2 tree and of random trees.",
          "Trusts the reference lexer/parser (harness/src/model/{lex,parse}.rs) and the harness printers.",
          "DESIGN.md §4 C07"),
  "C08": ("property-based round-trip testing of literal spellings (value -> harness printer -> Expr::parse) for ints in four radices, floats, decimals, strings with escapes; differential word classification against the reference lexer; metamorphic layout/comment insertion",
@@ -41,36 +41,36 @@ CHECKS = {
          "Exploration: every enumerated and random tree of the parser's image is printed with Display and parsed back, through Expr::parse and as the expression of a rule text through Rule::parse; the result must equal the tree (literals exactly); a sample is also evaluated before/after on random inputs. Non-finite float literals are a known finding, isolated by re-checking with the literal replaced.",
          "Trusts the image generator to stay inside the parser's image (cross-checked by C07's print/parse round trip).",
          "DESIGN.md §4 C16"),
- "C09": ("model-based property testing of ruleset evaluation: exhaustive small rulesets over 15 rule kinds (every subset/position of failing rules) + seeded random rulesets and serde inputs; oracle = reference evaluator per rule and serialize/evaluate equivalence",
-         "Exploration: outcome count, order, carried rule and value (vs the reference evaluator on the rule alone) for every ruleset of 0-4 rules over 15 kinds, for rulesets of 31-1000 rules and for random rulesets evaluated on 1-3 inputs by the same instance, built through every builder entry point; evaluate(&T) vs evaluate_value(&serialize(T)) for generated serde values including failing Serialize impls.",
+ "C09": ("model-based property testing of ruleset evaluation: exhaustive small rulesets over 18 rule kinds (every subset/position of failing rules) + seeded random rulesets and serde inputs; oracle = reference evaluator per rule and serialize/evaluate equivalence",
+         "Exploration: outcome count, order, carried rule and value (vs the reference evaluator on the rule alone) for every ruleset of 0-4 rules over 18 kinds (incl. symbols as operands of membership tests), for rulesets of 31-1000 rules and for random rulesets evaluated on 1-3 inputs by the same instance, built through every builder entry point; evaluate(&T) vs evaluate_value(&serialize(T)) for generated serde values including failing Serialize impls.",
          "Trusts the reference evaluator and the serde data-model generator/model (harness/src/sval.rs).",
          "DESIGN.md §4 C09"),
  "C11": ("stateful model-based property testing over call histories: generated rulesets of probe calls with similar-but-distinct arguments, failure sets and fail-first plans, 1-3 consecutive evaluations; oracle = per-evaluation cache model (invocation counts per key, observed values, failure outcomes)",
-         "Exploration: an exhaustive family over all ordered pairs of 38 equal / similar / colliding arguments x function identity x cacheability x failure x rule split, long arguments that agree in their first 2 kB, evaluations with 129-1000 distinct calls, interleaved evaluations of one ruleset under a harness-owned schedule, and seeded random call histories (functions registered through every builder entry point, failures raised as plain and as crate errors); invocation multisets and outcomes are compared with the cache model.",
+         "Exploration: an exhaustive family over all ordered pairs of 38 equal / similar / colliding arguments x function identity x cacheability x failure x rule split, long arguments that agree in their first 2 kB, probes that answer none and probes that stop being cacheable after a few invocations, evaluations with 129-1000 distinct calls, interleaved evaluations of one ruleset under a harness-owned schedule, and seeded random call histories (functions registered through every builder entry point, failures raised as plain and as crate errors); invocation multisets and outcomes are compared with the cache model.",
          "Invocations are observed through the harness's own probes; for arguments that are == yet distinguishable (0.0/-0.0, d1.0/d1.00, NaN) only the observed values are asserted, not the invocation counts.",
          "DESIGN.md §4 C11"),
  "C12": ("schedule-owning property testing: suspending probes + hand-rolled executor; exhaustive enumeration of poll orders and drop points for a small core, seeded random schedules beyond; metamorphic oracle: any schedule == run-alone baseline",
-         "Exploration: 4 small rulesets x 2 evaluations x all 1024 poll orders of 10 choices x 13 drop points (exhaustive), histories of 1-400 abandoned evaluations, histories of 1-300 evaluate(&T) calls whose input fails to serialize, up to 250 evaluations of deeply nested rules in flight at once, one evaluation of 600 cacheable calls, seeded histories of plain expression evaluations on one thread, and seeded random schedules of 1-4 interleaved evaluations with optional abandonment; outcomes, attributed invocations, input immutability, rule identity and post-history evaluation are compared with the sequential baseline.",
+         "Exploration: 4 small rulesets x 2 evaluations x all 1024 poll orders of 10 choices x 13 drop points (exhaustive), histories of 1-400 abandoned evaluations, histories of 1-300 evaluate(&T) calls whose input fails to serialize, up to 250 evaluations of deeply nested rules in flight at once, identical inputs in flight together, sequences of ==-equal but distinguishable inputs given to one ruleset instance, one evaluation of 600 cacheable calls, seeded histories of plain expression evaluations on one thread, and seeded random schedules of 1-4 interleaved evaluations with optional abandonment; outcomes, attributed invocations, input immutability, rule identity and post-history evaluation are compared with the sequential baseline.",
          "Suspension points exist only inside user functions (owned by the harness); failure plans are stateless so a history-independent baseline exists.",
          "DESIGN.md §4 C12"),
  "C13": ("property-based differential testing of the serializer: generated values of all 29 serde data-model kinds through a hand-written Serialize (incl. failing ones); oracles = prescribed faithful image, serde_json::to_value, panic-catching totality",
-         "Exploration: an exhaustive list of every kind at every limit (alone and inside every wrapper kind), sequences / maps / structs / texts of 31-65537 entries and nestings of 8-300 levels through every wrapper kind, 79 real-world Serialize implementations (serde-derive with rename/skip/flatten/tag/untagged attributes, std, chrono and serde_json types, failing ones) and seeded random nested values; the image must equal the prescribed one (or be an error where prescribed), equal serde_json's image on JSON-representable data, and never panic; the same through RuleSet::evaluate(&T).",
+         "Exploration: an exhaustive list of every kind at every limit (alone and inside every wrapper kind), sequences / maps / structs / texts of 31-65537 entries and nestings of 8-300 levels through every wrapper kind, failure messages of 0-70000 bytes with multi-byte characters at every offset, raw-identifier field names, 79 real-world Serialize implementations (serde-derive with rename/skip/flatten/tag/untagged attributes, std, chrono and serde_json types, failing ones) and seeded random nested values; the image must equal the prescribed one (or be an error where prescribed), equal serde_json's image on JSON-representable data, and never panic; the same through RuleSet::evaluate(&T).",
          "Trusts serde_json as reference image and the model in harness/src/sval.rs.",
          "DESIGN.md §4 C13"),
  "C15": ("stateful model-based property testing of the builder: generated histories of builder calls against a model (ordered rule names, function set, symbol map), name sweep with an independent Unicode identifier oracle (unicode-ident), probe rules on the built ruleset",
-         "Exploration (random histories, and long ones: 31-130 distinct rule / function / symbol names accepted through single and batch calls, then each again; Symbols tables built by From / insert / append): every call's Ok/Err (and the name inside the error) is predicted by the model; the built ruleset is probed for exactly the accepted rules in order, each accepted function under its own name, unknown-function errors for refused names and most-recent symbol values.",
+         "Exploration (random histories, and long ones: 31-130 distinct rule / function / symbol names accepted through single and batch calls, then each again; Symbols tables built by From / insert / append; rule and function name pools overlap, functions differ in cacheability): every call's Ok/Err (and the name inside the error) is predicted by the model; the built ruleset is probed for exactly the accepted rules in order, each accepted function under its own name, unknown-function errors for refused names and most-recent symbol values.",
          "Identifier well-formedness = ('_' | XID_Start) XID_Continue* by unicode-ident; characters on which unicode-ident and unicode-xid disagree are excluded and counted.",
          "DESIGN.md §4 C15"),
  "C17": ("property-based testing with exhaustive cores: all 8/16-bit values, +-2^13..2^17 windows around every integer limit into every integer type, every Value variant x every extraction, collections with a bad element at each position; oracle = i128 range arithmetic and round-trip equality",
-         "Exploration (exhaustive for the stated finite cores): conversions into Value and back return the original; narrowing succeeds exactly when in range and otherwise gives the overflow error; wrong kinds (incl. strings that spell a value of the wanted kind and collections of up to 1000 entries) give a type error carrying an equal value; collections convert iff every element does.",
+         "Exploration (exhaustive for the stated finite cores): conversions into Value and back return the original; narrowing succeeds exactly when in range and otherwise gives the overflow error; wrong kinds (incl. strings that spell a value of the wanted kind, lists of [key, value] pairs, maps keyed 0..n and collections of up to 1000 entries) give a type error carrying an equal value; collections convert iff every element does.",
          "Oracle is plain integer range arithmetic written in the check.",
          "DESIGN.md §4 C17"),
- "C18": ("compile-time auto-trait assertions as build precondition + randomized concurrent execution: N in {2,4,16} evaluations of one Arc<RuleSet> (plus large shared rulesets: 96-400 deeply nested suspending evaluations in flight, 100 rules x 500 call sites hammered by 8-16 threads) on a tokio multi-thread runtime and on raw threads, compared with the sequential baseline",
+ "C18": ("compile-time auto-trait assertions as build precondition + randomized concurrent execution: N in {2,4,16} evaluations of one Arc<RuleSet> (plus large shared rulesets: 96-400 deeply nested suspending evaluations in flight, 100 rules x 500 call sites hammered by 8-16 threads; identical inputs evaluated concurrently; every other task cancelled midway, then every input evaluated again) on a tokio multi-thread runtime and on raw threads, compared with the sequential baseline",
          "Exploration: the dynamic half samples real thread interleavings (it does not enumerate them) and compares outcomes and per-evaluation invocation multisets with sequential runs; the static half (Send/Sync of 10 public types, Send of 4 evaluation futures) is decided by the compiler when the check binary is built and a failure there is reported as the violation.",
          "Weak evidence for 'all interleavings' by design; reval holds no shared mutable state. The static half is not a generated-input check (DESIGN.md §7).",
          "DESIGN.md §4 C18"),
  "C19": ("fault-isolating fuzzing by depth: child process per (construct, depth, operation, stack size) on a geometric depth ladder; oracle = exit status (normal vs killed by signal); thresholds relative to recorded known findings",
-         "Exploration: 33 recursive constructs x 9 operations (the ninth: evaluation as a rule of a ruleset assembled through with_rule / with_rules) x 2 stack sizes, each ladder (with seeded depth jitter) climbed to 2^17 (quick) / 2^18 (thorough) or the first crash. Crashes deeper than the recorded safe depth of a listed known finding are reported as KNOWN-FINDING; any other crash is a violation.",
+         "Exploration: 36 recursive constructs (incl. deep terms followed by a syntax error) x 11 operations (incl. evaluation as a rule of a ruleset assembled through with_rule / with_rules, comparison of two differently named rules holding the tree, debug-printing a rule) x 2 stack sizes, each ladder (with seeded depth jitter) climbed to 2^17 (quick) / 2^18 (thorough) or the first crash. Crashes deeper than the recorded safe depth of a listed known finding are reported as KNOWN-FINDING; any other crash is a violation.",
          "Thresholds depend on the harness's release profile and the two pinned stack sizes.",
          "DESIGN.md §4 C19"),
  "C10": ("property-based testing with unique-leaf inputs: generated nested inputs x access paths (present, absent at each level, off-by-one, wrong step kind) and near-miss symbol/function tables; oracle = direct walk of the input",
@@ -78,7 +78,7 @@ CHECKS = {
          "Trusts the direct walk in harness/src/props/c10.rs.",
          "DESIGN.md §4 C10"),
  "C01": ("property-based testing: bounded-exhaustive operand enumeration + seeded random expression trees (proptest, shrinking) against a reference evaluator; panic-catching totality oracle",
-         "Exploration: every node kind x every operand tuple of a 130-value boundary pool (exhaustive), all depth-2 compositions over an extremes pool, seeded random trees to depth 6, and chains / towers of 18 operands of every operator over logged calls (each operand must run once: work linear in the expression) are evaluated under a panic-catching boundary; a panic, a Pending future, or a value where the exact result is out of range is a violation. Holds on what was explored; absence beyond it is not established.",
+         "Exploration: every node kind x every operand tuple of a 130-value boundary pool (exhaustive), all depth-2 compositions over an extremes pool, seeded random trees to depth 6, and chains / towers of 18 operands of every operator over logged calls (each operand must run once: work linear in the expression) are evaluated under a panic-catching boundary, also from a thread-local destructor while the thread exits; a panic, a Pending future, or a value where the exact result is out of range is a violation. Holds on what was explored; absence beyond it is not established.",
          "Trusts the reference evaluator's range rules (harness/src/model/eval.rs) and the primitive checked arithmetic of std / rust_decimal / chrono; build uses overflow-checks=on.",
          "DESIGN.md §4 C01"),
 }
@@ -105,7 +105,7 @@ def main():
         })
     manifest = {
         "version": 1,
-        "setup_cmd": "cd /verif/harness && CARGO_NET_OFFLINE=true cargo build --release --offline --bins",
+        "setup_cmd": "cd /verif/harness && CARGO_NET_OFFLINE=true cargo build --release --offline --bins && CARGO_NET_OFFLINE=true cargo build --offline --bin rvv_deep",
         "hooks": {
             "guard": "none",
             "enable": "no hooks: every observation point is public API; checks build /repo's working tree as a path dependency of /verif/harness",
